@@ -1254,6 +1254,7 @@ def run(ctx):
     # ---- 4. oracle: every panic / exit / fatal error / time-out is a violation, keyed by root cause
     recs, folded = fold_timeouts(recs)
     dist, errkinds, bykey = {}, {}, {}
+    syntax_of = {r[0]: r[5] for r in recs if r[1] == "syntax" and r[2] == "ok"}
     for r in recs:
         i, ep, outcome, us, lim, detail = r
         dist.setdefault(ep, {})
@@ -1264,7 +1265,11 @@ def run(ctx):
             errkinds.setdefault(ep, {})
             errkinds[ep][kind] = errkinds[ep].get(kind, 0) + 1
         if outcome in BAD:
-            bykey.setdefault(record_key(r, gen.inputs[i]["size"]), []).append(r)
+            key = record_key(r, gen.inputs[i]["size"])
+            if key.startswith("panic:internal/format.File:"):
+                # the dispatch's own panic: the trigger class is the language DetectLang reported for this input
+                key += ":lang=" + syntax_of.get(i, "?")
+            bykey.setdefault(key, []).append(r)
     known_keys = [k for k in ctx.known]
 
     def is_known(key):
@@ -1299,7 +1304,7 @@ def run(ctx):
             rr = run_single(h, ["m", ep, hexs(inp["name"]), hexs(d)], ep, ctx.tmp, "min_%s_%s" % (r[0], ep))
             if syn and (rr[5].split() or [""])[0] != syn:
                 return False           # keep "the input parses without error" while shrinking
-            return rr[2] in BAD and record_key(rr, inp["size"]) == key
+            return rr[2] in BAD and key.startswith(record_key(rr, inp["size"]))
         # a panic may be intermittent (iteration order of a Go map): several attempts before giving up
         if not any(same_key(data) for _ in range(1 if r[2] == "timeout" else 6)):
             return key, None, info
@@ -1418,7 +1423,7 @@ def run(ctx):
         "dispatch": dstats,
         "dispatch_tables": cfg,
         "scaling_top": scaling[:15],
-        "time_limit": "CPU time of the child process during the call: 2 s + 100 ms/KiB (LoadProgramFile: 8 s + 200 ms/KiB); wall-clock fallback 25x; memory: RLIMIT_AS %d GiB, GOMEMLIMIT %s" % (MEM_LIMIT >> 30, GOMEMLIMIT),
+        "time_limit": "CPU time of the child process during the call: 2 s + 100 ms/KiB, at most 60 s (LoadProgramFile: 8 s + 200 ms/KiB, at most 240 s); wall-clock fallback 25x; memory: RLIMIT_AS %d GiB, GOMEMLIMIT %s" % (MEM_LIMIT >> 30, GOMEMLIMIT),
         "timing": timing,
         "seeds": {k: len(v) for k, v in seeds.by_lang.items()},
     }
